@@ -147,6 +147,11 @@ def bind_args(self, fc, args, kwargs, env, fn_node=None):
             raise E.Unsupported("unknown keyword %s for %s" % (k, fc.qualname))
         bound[k] = self.ev(node, env) if isinstance(node, ast.AST) else node
     missing = [p for p in names if p not in bound]
+    if missing and fc.name.endswith(">"):
+        for p in list(missing):
+            if p in env.locals:              # free variable of a nested function: the enclosing function's local of that name
+                bound[p] = env.locals[p]
+                missing.remove(p)
     if missing:
         defaults = dict(self.defaults_of(fc))
         for k_, e_ in getattr(fc, "default_exprs", {}).items():
@@ -214,6 +219,9 @@ def call_contract(self, fc, recv, args, kwargs, line, label):
         E.Path._hc[0] += 1
         loc[wname] = V(None, FunS(wsort.args, wsort.res, name="%s!%d" % (wname, E.Path._hc[0])))
         env.locals["g_" + wname] = loc[wname]          # the caller may name the witness in its own hints / invariants
+    for wname, (wsort, bound_to) in getattr(fc, "witness_vals", {}).items():
+        loc[wname] = fresh_v("w_" + wname, wsort)
+        env.locals["g_" + wname] = loc[wname]
     if recv is not None and fc.cls is not None:
         loc[selfname] = recv
     pre_env = E.Env(loc, dict(env.heap), env.alloc, spec=True)
@@ -251,6 +259,8 @@ def call_contract(self, fc, recv, args, kwargs, line, label):
         res = fresh_v("ys_" + fc.name.strip("_"), SeqS(fc.yields))
         res.lazy = lazy
         self.wf(res)
+        short = fc.name.split(".")[-1].strip("<>_")
+        env.locals["g_ys_" + short] = V(res.t, res.s)        # the caller may name the callee's yield summary in its invariants
     elif fc.returns is not None and fc.returns != NONE:
         res = fresh_v("r_" + fc.name.strip("_"), fc.returns)
         res.lazy = lazy
